@@ -1,5 +1,5 @@
 """C05 — PIN blocks have exactly the ISO 9564-1 layout."""
-from core import Case, enc_b, enc_s
+from core import call_impl, Case, enc_b, enc_s
 from props.cardutil import digits, rb
 
 OBLIGATIONS = ["Psec.Props.C05.iso0_eq_spec", "Psec.Props.C05.iso2_eq_spec", "Psec.Props.C05.iso3_layout", "Psec.Props.C05.iso4_pin_field_layout", "Psec.Props.C05.iso4_pan_field_eq_spec", "Psec.Props.C05.iso4_encipher_eq", "Psec.Props.C05.panBlock_eq_spec", "Psec.Props.C05.choices_alphabet"]
@@ -15,6 +15,26 @@ def nibs(b):
     return [x for byte in b for x in (byte >> 4, byte & 15)]
 
 
+def rejected_first(rng, fns):
+    """Before a valid call, now and then make calls that the encoder must reject (a longer PIN / PAN with a bad character
+    early, in the middle or last; a wrong length): nothing of a rejected call may survive into the next valid one."""
+    if rng.random() > 0.35:
+        return
+    bad = rng.choice(["X", "a", " ", "\n", "\uff11", "-"])
+    for fn, kind in fns:
+        n = rng.choice([12, 12, 10, 8, 13]) if kind == "pin" else rng.choice([19, 16, 24])
+        good = digits(rng, n)
+        pos = rng.choice([0, n // 2, n - 1])
+        arg = good[:pos] + bad + good[pos + 1:]
+        if fn.endswith(("encode_pinblock_iso_0", "encode_pinblock_iso_3")):
+            args = (arg, digits(rng, 16))
+        elif fn.endswith("encipher_pinblock_iso_4"):
+            args = (rb(rng, 16), arg, digits(rng, 12)) if kind == "pin" else (rb(rng, 16), digits(rng, 4), arg)
+        else:
+            args = (arg,)
+        call_impl(fn, args)
+
+
 def generate(rng, tier, seed):
     reps = 1 if tier == "quick" else 4
     pats = [lambda n: digits(rng, n), lambda n: "0" * n, lambda n: "9" * n, lambda n: "0" + digits(rng, n - 1), lambda n: digits(rng, n - 1) + "0"]
@@ -24,6 +44,8 @@ def generate(rng, tier, seed):
                 for _ in range(reps):
                     pin, pan = pat(plen), pats[rng.randrange(len(pats))](panlen)
                     c = Case("formats-0-2-3", {"pin_len": plen, "pan_len": panlen})
+                    rejected_first(rng, [("pinblock.encode_pinblock_iso_0", "pin"), ("pinblock.encode_pinblock_iso_2", "pin"),
+                                         ("pinblock.encode_pinblock_iso_3", "pin")])
                     e0 = c.call("pinblock.encode_pinblock_iso_0", pin, pan)
                     e2 = c.call("pinblock.encode_pinblock_iso_2", pin)
                     e3 = c.call("pinblock.encode_pinblock_iso_3", pin, pan, with_entropy=True)
@@ -54,6 +76,8 @@ def generate(rng, tier, seed):
                     pool = KEYPOOL.setdefault(ks, [rb(rng, ks) for _ in range(3)])
                     pin, pan, key = digits(rng, plen), pats[rng.randrange(len(pats))](pan4len), rng.choice(pool)
                     c = Case("format-4", {"pin_len": plen, "pan_len": pan4len, "key": ks})
+                    rejected_first(rng, [("pinblock.encode_pin_field_iso_4", "pin"), ("pinblock.encode_pan_field_iso_4", "pan"),
+                                         ("pinblock.encipher_pinblock_iso_4", rng.choice(["pin", "pan"]))])
                     f4 = c.call("pinblock.encode_pin_field_iso_4", pin, with_entropy=True)
                     pf = c.call("pinblock.encode_pan_field_iso_4", pan)
                     e4 = c.call("pinblock.encipher_pinblock_iso_4", key, pin, pan, with_entropy=True)
